@@ -116,7 +116,10 @@ def handle_import(self, section, rest):
 
 def handle_include(self, section, rest):
     rest = self.replace(rest.strip())
-    newurl = ZConfig.url.urljoin(self.url, rest)
+    try:
+        newurl = ZConfig.url.urljoin(self.url, rest)
+    except ValueError as e:
+        self.error("invalid URL")
     self.context.includeConfiguration(section, newurl, self.defines)
 
 
